@@ -10,12 +10,12 @@ git -C /repo worktree add -q "$wt" HEAD || exit 2
 trap 'git -C /repo worktree remove --force "$wt" >/dev/null 2>&1' EXIT
 log="/verif/work/seedverify-$id.log"; : > "$log"
 echo "== demo on pristine tree" >> "$log"
-( cd "$src" && bash ./run.sh "$wt" ) >> "$log" 2>&1; pristine=$?
+( cd "$src" && GNARK_DIR="$wt" bash ./run.sh "$wt" ) >> "$log" 2>&1; pristine=$?
 git -C "$wt" apply "$src/patch.diff" || { echo "$id: PATCH DOES NOT APPLY"; exit 2; }
 echo "== go build" >> "$log"
 ( cd "$wt" && go build ./... ) >> "$log" 2>&1; build=$?
 echo "== demo on patched tree" >> "$log"
-( cd "$src" && bash ./run.sh "$wt" ) >> "$log" 2>&1; patched=$?
+( cd "$src" && GNARK_DIR="$wt" bash ./run.sh "$wt" ) >> "$log" 2>&1; patched=$?
 pkgs=$(git -C "$wt" diff --name-only | grep '\.go$' | xargs -n1 dirname | sort -u | sed 's#^#./#' | tr '\n' ' ')
 echo "== go test $pkgs ./internal/stats/" >> "$log"
 ( cd "$wt" && go test -count=1 -timeout 60m $pkgs ./internal/stats/ ) >> "$log" 2>&1; tests=$?
